@@ -75,6 +75,11 @@ Zbp :: blob {
     f: pu int -> int,
 }
 
+Zbs :: blob {
+    n: int,
+    g: pu -> int,
+}
+
 hzc :: 1
 
 hzm := 1
@@ -429,6 +434,19 @@ pub const C03_KINDS: &[Kind] = &[
     k("ret of another type in an if-expression bound to a constant", Body::Stmts(&["zf :: fn zc: bool -> int do", "    zq :: if zc do", "        ret \"s\"", "    else do", "        1", "    end", "    zq", "end"])),
     k("ret of another type in a loop body", Body::Stmts(&["zf :: fn zc: bool -> int do", "    loop zc do", "        ret \"s\"", "    end", "    1", "end"])),
     k("ret of another type in an if-expression operand of the trailing expression", Body::Stmts(&["zf :: fn zc: bool -> int do", "    1 + if zc do", "        ret \"s\"", "    else do", "        1", "    end", "end"])),
+    k("ret of another type in an if-expression that is a list element", Body::Stmts(&["zf :: fn zc: bool -> int do", "    zq :: [2, if zc do", "        ret \"s\"", "    else do", "        1", "    end]", "    1", "end"])),
+    k("ret of another type in an if-expression that is the only list element", Body::Stmts(&["zf :: fn zc: bool -> int do", "    zq :: [if zc do", "        ret \"s\"", "    else do", "        1", "    end]", "    1", "end"])),
+    k("ret of another type in an if-expression that is a tuple element", Body::Stmts(&["zf :: fn zc: bool -> int do", "    zq :: (2, if zc do", "        ret \"s\"", "    else do", "        1", "    end)", "    1", "end"])),
+    k("ret of another type in an if-expression that is a blob field", Body::Stmts(&["zf :: fn zc: bool -> int do", "    zq :: Z3 { a: 1, b: 2, c: if zc do", "        ret \"s\"", "    else do", "        1", "    end }", "    1", "end"])),
+    k("ret of another type in an if-expression that is a call argument", Body::Stmts(&["zf :: fn zc: bool -> int do", "    zq :: zh1(if zc do", "        ret \"s\"", "    else do", "        1", "    end)", "    1", "end"])),
+    k("ret of another type in an if-expression that is a nested list element", Body::Stmts(&["zf :: fn zc: bool -> int do", "    zq :: [[2], [if zc do", "        ret \"s\"", "    else do", "        1", "    end]]", "    1", "end"])),
+    k("ret of another type in an if-expression that is a list element passed to a call", Body::Stmts(&["zf :: fn zc: bool -> int do", "    zq :: zlen([2, if zc do", "        ret \"s\"", "    else do", "        1", "    end])", "    1", "end"])),
+    k("ret of another type in an if-expression that is an index", Body::Stmts(&["zf :: fn zc: bool -> int do", "    zq :: [1, 2][if zc do", "        ret \"s\"", "    else do", "        1", "    end]", "    1", "end"])),
+    k("ret of another type in an if-expression that is a variant payload", Body::Stmts(&["zf :: fn zc: bool -> int do", "    zq :: Ze2.A if zc do", "        ret \"s\"", "    else do", "        1", "    end", "    1", "end"])),
+    k("ret of another type in an if-expression that is a comparison operand", Body::Stmts(&["zf :: fn zc: bool -> int do", "    zq :: 2 < if zc do", "        ret \"s\"", "    else do", "        1", "    end", "    1", "end"])),
+    k("ret of another type in a case-expression that is a list element", Body::Stmts(&["zf :: fn zc: bool -> int do", "    zq :: [2, case Ze2.B do", "        A zy ->", "            ret \"s\"", "        end", "        else", "            1", "        end", "    end]", "    1", "end"])),
+    k("ret of a value in an if-expression list element of a void function", Body::Stmts(&["zf :: fn zc: bool do", "    zq :: [2, if zc do", "        ret \"s\"", "    else do", "        1", "    end]", "end"])),
+    k("two rets of different types, the second in a list element", Body::Stmts(&["zf :: fn zc: bool ->", "    if zc do", "        ret 1", "    end", "    zq :: [2, if zc do", "        ret \"s\"", "    else do", "        1", "    end]", "    1", "end"])),
     // `self` inside a method is the blob being built: its fields have their declared types
     k("self field used at another type in a method", Body::Stmts(&["zo :: Zbm { n: 1, f: fn -> int do", "    zq :: self.n + \"s\"", "    1", "end }"])),
     k("self field assigned a value of another type in a method", Body::Stmts(&["zo :: Zbm { n: 1, f: fn -> int do", "    self.n = \"s\"", "    1", "end }"])),
@@ -588,6 +606,12 @@ pub const C04_KINDS: &[Kind] = &[
     k("pure: recursive call through the typed mutable local that holds the function", Body::Stmts(&["zdepth: pu int -> int = pu zn: int -> int do", "    if zn <= 0 do", "        ret 0", "    end", "    zdepth(zn - 1) + 1", "end"])),
     k("pure: the mutable local that holds the function read as a value inside it", Body::Stmts(&["zself := pu zn: int -> int do", "    zh :: zself", "    zn", "end"])),
     k("pure: pu closure inside a mutable-bound fn mentions the enclosing function", Body::Stmts(&["ztable := fn zn: int -> int do", "    zcur :: pu -> int do", "        zg :: ztable", "        1", "    end", "    zcur()", "end"])),
+    k("pure: pu method reads a field of self", Body::Stmts(&["zo :: Zbs { n: 1, g: pu -> int do", "    self.n", "end }"])),
+    k("pure: pu method reads self as a value", Body::Stmts(&["zo :: Zbs { n: 1, g: pu -> int do", "    zs :: self", "    1", "end }"])),
+    k("pure: pu method reads a field of self in a nested pu closure", Body::Stmts(&["zo :: Zbs { n: 1, g: pu -> int do", "    zg :: pu -> int do", "        self.n", "    end", "    zg()", "end }"])),
+    k("pure: pu method reads a field of self in an if arm", Body::Stmts(&["zo :: Zbs { n: 1, g: pu -> int do", "    if true do", "        ret self.n", "    end", "    0", "end }"])),
+    k("pure: pu closure inside an fn method reads a field of self", Body::Stmts(&["zo :: Zbm { n: 1, f: fn -> int do", "    zg :: pu -> int do", "        self.n", "    end", "    zg()", "end }"])),
+    k("pure: pu method of a mutable-bound blob reads a field of self", Body::Stmts(&["zo := Zbs { n: 1, g: pu -> int do", "    self.n + 1", "end }"])),
     k("pure: read of mutable local", Body::InPure { prelude: &["zm := 1"], params: "", viol: &["zr :: zm"] }),
     k("pure: read of mutable global", Body::InPure { prelude: &[], params: "", viol: &["zr :: hzm"] }),
     k("pure: call of fn function", Body::InPure { prelude: &[], params: "", viol: &["zr :: hzf()"] }),
